@@ -9,6 +9,7 @@ From Frugal.gen Require Import Params.
 From Frugal.proofs Require Import StateProofs.
 From Frugal.proofs Require Import TagsStruct.
 From Frugal.props Require Import Examples.
+From Frugal.proofs Require Import GenAccess.
 Import ListNotations.
 
 (* consistency: in ANY history a type whose definition (or a definition it reaches) does not resolve
@@ -143,3 +144,8 @@ Theorem C13_rejected_everywhere : forall gu s u gs,
   reach gu s u -> nth_error gu (N.to_nat u) = Some gs -> resolve_fields gs = RErr -> accepted gu s = false.
 Proof. exact rejected_everywhere. Qed.
 Print Assumptions C13_rejected_everywhere.
+
+(* the registration path of desc.go reads as State.v assumes: one lock around build, rollback on
+   failure / commit on success, and publication; nothing deferred outside the lock (Checks.access_ok) *)
+Theorem C13_registration_shape : access_ok = true.
+Proof. exact access_ok_holds. Qed.
